@@ -35,6 +35,7 @@ const (
 	NewMap                 // new Map(ITER)   (At: adder throws at call At)
 	NewSet                 // new Set(ITER)
 	PromiseAll             // Promise.all(ITER).then(log, log)
+	GoForOf                // goForOf(ITER, Op, At, …): host native driving Runtime.ForOf; the Go step callback continues / stops (Op 1) / throws (Op 2 value, 3 TypeError, 4 via a throwing JS callback) at item At
 	YieldStar              // yield* ITER            (generator bodies only)
 	Yield                  // yield 20000+ID         (generator bodies only)
 	GenNew                 // var g<Var> = gen(a, Gen, G<Gen>)
@@ -44,7 +45,7 @@ const (
 )
 
 var kindNames = [...]string{"block", "label", "if", "for", "while", "dowhile", "forin", "forof", "switch", "with", "try", "throw", "return", "break", "continue",
-	"log", "destruct", "spread", "arrayfrom", "newmap", "newset", "promiseall", "yieldstar", "yield", "gennew", "genop", "nest"}
+	"log", "destruct", "spread", "arrayfrom", "newmap", "newset", "promiseall", "goforof", "yieldstar", "yield", "gennew", "genop", "nest"}
 
 func (k Kind) String() string { return kindNames[k] }
 
@@ -126,7 +127,7 @@ type Node struct {
 
 	Var int // GenNew / GenOp: generator variable slot
 	Gen int // GenNew: generator function index (1-based)
-	Op  int // GenOp: 0 next, 1 return, 2 throw
+	Op  int // GenOp: 0 next, 1 return, 2 throw;  GoForOf: 0 run to exhaustion, 1 stop at item At, 2/3/4 throw at item At
 
 	TD int // Nest: depth;  TM: mode (as Iter.TM)
 	TM int
